@@ -81,6 +81,7 @@ type c12Cfg struct {
 	compactNodes []multiraft.NodeID
 	crashNodes   []multiraft.NodeID
 	nodeFaults   bool          // isolate / stall deviations (persistent until heal)
+	isolateOnly  bool          // node faults are restricted to "isolate n" (no stall)
 	linkModes    []string      // per-event link deviations: "drop", "hold", "dup"
 	msgDev       bool          // per-message drop / duplicate / hold deviations
 	crashPoints  []string      // crash deviations inside a pass: "save-before", "save-after", "apply-after"
@@ -899,12 +900,15 @@ func (in *c12Inst) Apply(evl string, env *mc.Env) (string, error) {
 		nNode := 0
 		if in.cfg.nodeFaults && in.faultKind == c12FaultNone && verb != "heal" {
 			nNode = 2 * c12Nodes
+			if in.cfg.isolateOnly {
+				nNode = c12Nodes
+			}
 		}
 		nLink := len(in.cfg.linkModes) * c12Nodes * (c12Nodes - 1)
 		if c := in.chooseEnv("env", 1+nNode+nLink); c > 0 {
 			c--
 			switch {
-			case c < nNode && c < c12Nodes:
+			case c < nNode && c < c12Nodes: // (isolateOnly: nNode == c12Nodes)
 				in.faultKind, in.faultNode = c12FaultIsolate, multiraft.NodeID(c+1)
 				in.note("isolate n%d", c+1)
 			case c < nNode:
@@ -1327,6 +1331,18 @@ func TestVerifC12(t *testing.T) {
 		c.maxCompacts, c.maxCrashes, c.crashPoints = 0, 0, nil
 		c.linkModes = ev.Pick(r, []string{"drop", "hold"}, []string{"drop", "hold", "dup"})
 	})
+	// staleleader: a leader cut off from its quorum keeps appending proposals locally while the
+	// majority elects a new leader that commits other commands at the same indexes; after the
+	// heal the old leader's log is overwritten (its pending futures must not be completed by the
+	// foreign entries). Small alphabet {propose on any self-declared leader, campaign@2, leader
+	// tick, heal}, long sequences.
+	add("staleleader", ev.Pick(r, 6, 8), 1, func(c *c12Cfg) {
+		c.maxProposals, c.maxTicks = ev.Pick(r, 3, 4), ev.Pick(r, 1, 2)
+		c.maxCompacts, c.maxCrashes, c.crashPoints = 0, 0, nil
+		c.transfer = false
+		c.linkModes = nil
+		c.isolateOnly = !th
+	})
 	// recovery: lagging follower, compaction, snapshot transfer, crash-restart (no leadership change)
 	add("recovery", ev.Pick(r, 4, 5), 2, func(c *c12Cfg) {
 		c.maxLeaderChg, c.nodeFaults = 0, false
@@ -1393,7 +1409,7 @@ func TestVerifC12(t *testing.T) {
 				"raft_log_store": map[bool]string{false: "raftlog.NewMemory()", true: "raftlog Pebble store on tmpfs (one DB per node, fresh scope per instance)"}[cfg.pebble != nil],
 				"compactions":    cfg.maxCompacts, "compaction_nodes": fmt.Sprint(cfg.compactNodes),
 				"crash_restarts": cfg.maxCrashes, "crash_nodes": fmt.Sprint(cfg.crashNodes),
-				"deviation_kinds": fmt.Sprintf("node faults (isolate n | stall n until heal): %v; per-event link deviations %v on each of the 6 directed links; per-message drop/duplicate/hold: %v; crash-restart inside a pass at %v", cfg.nodeFaults, cfg.linkModes, cfg.msgDev, cfg.crashPoints),
+				"deviation_kinds": fmt.Sprintf("node faults (isolate n | stall n until heal): %v (isolate only: %v); per-event link deviations %v on each of the 6 directed links; per-message drop/duplicate/hold: %v; crash-restart inside a pass at %v", cfg.nodeFaults, cfg.isolateOnly, cfg.linkModes, cfg.msgDev, cfg.crashPoints),
 			},
 			Note: "one event = action + run to quiescence on the real Runtime.processSlot; merging on a SHA-256 of a reflective dump of the whole slot + RawNode + stores + state machines + network + oracle bookkeeping",
 		})
